@@ -242,6 +242,9 @@ func (w *z15World) do(q z15Req) {
 		code, body = w.call("GET", "/api/tags", nil)
 	case "show":
 		code, body = w.call("POST", "/api/show", api.ShowRequest{Model: q.A})
+	case "show-options":
+		// show with option overrides, on a model that has no parameters of its own
+		code, body = w.call("POST", "/api/show", api.ShowRequest{Model: q.A, Options: map[string]any{"temperature": 0.5}})
 	case "create":
 		d := z4GGUF(&z12World{ztWorld: w.ztWorld}, 1)
 		code, body = w.call("POST", "/api/create", api.CreateRequest{Model: q.A, Files: map[string]string{"m.gguf": d}, System: q.B, Stream: &z15Stream})
@@ -438,6 +441,7 @@ func z15Scenarios(thorough bool) []z15Scenario {
 		{Name: "create|tags", Cap: 1, Reqs: []z15Req{{Kind: "create", A: "c", B: "S1"}, {Kind: "tags"}}},
 		{Name: "create|create", Cap: 1, Reqs: []z15Req{{Kind: "create", A: "c", B: "S1"}, {Kind: "create", A: "c", B: "S2"}}},
 		{Name: "copy|delete", Cap: 1, Reqs: []z15Req{{Kind: "copy", A: "a", B: "d"}, {Kind: "delete", A: "a"}}},
+		{Name: "show-options|tags", Cap: 1, Reqs: []z15Req{{Kind: "show-options", A: "a"}, {Kind: "tags"}}},
 		{Name: "delete|show", Cap: 1, Reqs: []z15Req{{Kind: "delete", A: "a"}, {Kind: "show", A: "a"}}},
 		{Name: "create|delete-sharing", Cap: 1, Reqs: []z15Req{{Kind: "create", A: "c", B: ""}, {Kind: "delete", A: "a"}}},
 		{Name: "blob|blob same", Cap: 1, Reqs: []z15Req{{Kind: "blob", A: "x"}, {Kind: "blob", A: "x"}}},
